@@ -592,6 +592,7 @@ func c04Metadata(c *Ctx) {
 func runC04(c *Ctx) {
 	initKeys()
 	c.rep.Rule = "every signed artefact the real endpoints emit, verified by implementations other than the signer's: login-callback replies over (13 fields that reach a signed artefact) x (18 character classes of the quantifier) x {POST, Redirect} x {rsa-sha1, rsa-sha256}, plus the label domain of the callback suite (stored binding, consumer URL incl. empty, key faults), attribute-query answers, signed metadata over organisation/contact strings x algorithms; the model's verifier / unescaper / canonical forms against net/url, the independent redirect verifier, etree's canonical writer and the digest xmlsig computes. Non-trivial = a Success response was emitted (or signed metadata served); distinct = (artefact, field, class, binding, algorithm)."
+	marshalStability(c, "xml.Marshal")
 	c04Lib(c)
 	rv := &batch{c: c, site: "lib rverify"}
 	// callback: field x class x binding x algorithm
